@@ -813,6 +813,6 @@ func FixedPrograms() []*Program {
 		mk(`t := import("tiny"); return [t.k, t.f()]`, "tiny"),
 		mk(`c := import("cust"); return [c.nan, c.negz, c.fn(), c.m.fn(1), c.blen([1]), c.sm, c.und]`, "cust"),
 		mk(`c := import("custg"); return [string(c.err), c.nan]`, "custg"),
-		mk(`return "`+strings.Repeat("L", 70000)+`"`),
+		mk(`return "` + strings.Repeat("L", 70000) + `"`),
 	}
 }
